@@ -101,6 +101,16 @@ CHECKS = {
   note=TRUST + 'EXPUNGE is modelled on the acting session\'s view; keywords are not permitted flags on the dict backend. '
        'Outside: maildir, body content (C03), longer programs.',
   technique='symbolic execution of the real session layer with z3 against a reference model, bounded programs'),
+ 'C11': dict(
+  text='(a) the real ListTree (update/list_matching/_get_pattern) with symbolic mailbox names and a symbolic LIST pattern: the regex '
+       'pymap builds from the pattern is matched by the engine over symbolic characters and must agree, for every name, with a DP table '
+       'of z3 terms encoding "* matches anything, % anything but the delimiter"; (b) programs of CREATE/DELETE/RENAME/SUBSCRIBE/LIST/'
+       'LSUB/STATUS/SELECT through the real do_command on the dict backend over a vocabulary of awkward names (hierarchy, case variants '
+       'of INBOX, newline, wildcard characters) with a symbolic LIST pattern against a set-of-names model incl. RENAME of inferiors and '
+       'INBOX, NO => unchanged; (c) the maildir MailboxSet with a stub layout raising each documented exception: the session layer '
+       'answers NO.',
+  note=TRUST + 'Names without empty components; ASCII case folding for INBOX. Outside: maildir directories, modified UTF-7 spelling (C18).',
+  technique='symbolic execution of the real code with z3; symbolic regex matching vs. a z3 DP specification of the wildcards'),
  'C12': dict(
   text='Bounded symbolic execution of programs (<= 2 commands: STORE, UID STORE, EXPUNGE, UID EXPUNGE, FETCH BODY[], COPY, MOVE, '
        'UID MOVE, own APPEND, CLOSE, NOOP; symbolic set numbers and UID base) inside an EXAMINE selection and inside a '
